@@ -68,11 +68,11 @@ func (c09) Budget(tier string) runner.Budget {
 
 func (c09) Describe() runner.Description {
 	return runner.Description{
-		Rule:        "each plan: (A) a node casts 1..4 blocks with transfer / contract transactions; every block, header, transaction and group the node produced or parsed is sent through Marshal/UnMarshal: the parsed object must re-hash to the sender's identifying hash and re-marshal to identical bytes; a block accepted by one incarnation is relayed as bytes and must be accepted by another with the same hash; edge-valued in-memory headers/transactions/groups (times in a seeded zone with sub-second part, zero and maximal integers, nil vs empty byte fields, prove values whose bytes start with zeros, request-id maps, empty and 200-transaction bodies) must reach a fixed point after one marshal/parse pass; the genesis header and fully populated boundary headers (prove value 0/1/255/256, zero counters, epoch times) and 10 seeded transactions with unusual field texts (upper-case / EIP-55 / 0X-prefixed / non-address sources and targets, binary and unicode data, extreme nonces and request ids, sub transactions moving balance / coins / fungible tokens / assets) must keep their hash and every field; bytes returned by any Marshal call must not change when the codec is used again. (C, 40% of the plans) 2-3 scheduler tasks marshal the node's blocks, headers, transactions and the group concurrently (statement-level yield points inside middleware/types): every caller must receive exactly the bytes the same call returns alone; the same plans run in the race-detector stage. (B) 20..120 corrupted deliveries: valid bytes of each message kind are bit-flipped, truncated, extended, stripped of one optional protobuf field, or replaced by random bytes, and handed to the exported parsers directly and, as envelopes or as gateway frames (every method code, with the network-id prefix of the to-manager method, also cut short), to the node's receive path (NewBlockMsg, ReqTransactionMsg, TransactionGotMsg handlers run as scheduler tasks); consensus messages (block proposal, verification share, key share piece, signing-key announcement; built as the consensus encoders build them, then corrupted) take the same path into the real ConsensusHandler.Handle, which the connection starts as a goroutine = a scheduler task, and through consensus/net/msg_decode.go. Any panic that escapes is a violation; afterwards an intact block must still be accepted. evaluations = codec round trips + corrupted deliveries. distinct_nontrivial = distinct (message kind, corruption kind, parse outcome, path) tuples.",
+		Rule:        "each plan: (A) a node casts 1..4 blocks with transfer / contract transactions; every block, header, transaction and group the node produced or parsed is sent through Marshal/UnMarshal: the parsed object must re-hash to the sender's identifying hash and re-marshal to identical bytes; a block accepted by one incarnation is relayed as bytes and must be accepted by another with the same hash; edge-valued in-memory headers/transactions/groups (times in a seeded zone with sub-second part, zero and maximal integers, nil vs empty byte fields, prove values whose bytes start with zeros, request-id maps, empty and 200-transaction bodies) must reach a fixed point after one marshal/parse pass; the genesis header and fully populated boundary headers (prove value 0/1/255/256, zero counters, epoch times) and 10 seeded transactions with unusual field texts (upper-case / EIP-55 / 0X-prefixed / non-address sources and targets, binary and unicode data, extreme nonces and request ids, sub transactions moving balance / coins / fungible tokens / assets) must keep their hash and every field; bytes returned by any Marshal call must not change when the codec is used again. (C, 40% of the plans) 2-3 scheduler tasks marshal the node's blocks, headers, transactions and the group concurrently (statement-level yield points inside middleware/types): every caller must receive exactly the bytes the same call returns alone and re-hash its header / transaction to the identifying hash; the same plans run in the race-detector stage. (B) 20..120 corrupted deliveries: valid bytes of each message kind are bit-flipped, truncated, extended, stripped of one optional protobuf field, or replaced by random bytes, and handed to the exported parsers directly and, as envelopes or as gateway frames (every method code, with the network-id prefix of the to-manager method, also cut short), to the node's receive path (NewBlockMsg, ReqTransactionMsg, TransactionGotMsg handlers run as scheduler tasks); consensus messages (block proposal, verification share, key share piece, signing-key announcement; built as the consensus encoders build them, then corrupted) take the same path into the real ConsensusHandler.Handle, which the connection starts as a goroutine = a scheduler task, and through consensus/net/msg_decode.go. Any panic that escapes is a violation; afterwards an intact block must still be accepted. evaluations = codec round trips + corrupted deliveries. distinct_nontrivial = distinct (message kind, corruption kind, parse outcome, path) tuples.",
 		Assumptions: []string{"sync-processor message kinds are not driven (the sync processor is not started)"},
 		Real:        []string{"middleware/types serialization (all Marshal*/UnMarshal*, PbTo*)", "network envelope codec and receive dispatch (instrumented: its goroutines are scheduler tasks)", "consensus/net ConsensusHandler.Handle + msg_decode + group-creation state machines", "core ChainHandler (new block, transaction request)", "notify bus fan-out under the simulated scheduler", "golang/protobuf"},
 		Stub:        []string{"websocket gate", "ConsensusHelper", "sync processor", "consensus message processors behind the real ConsensusHandler (decoded messages are dropped)"},
-		FaultKinds:  []string{"corrupt_bitflip", "corrupt_truncate", "corrupt_extend", "corrupt_dropfield", "corrupt_random", "relay_between_incarnations", "frame_truncated", "consensus_message_corrupted", "concurrent_codec_callers"},
+		FaultKinds:  []string{"corrupt_bitflip", "corrupt_truncate", "corrupt_extend", "corrupt_dropfield", "corrupt_random", "relay_between_incarnations", "frame_truncated", "consensus_message_corrupted", "concurrent_codec_callers", "gateway_request_id"},
 	}
 }
 
@@ -255,11 +255,21 @@ func (c09) Exec(raw json.RawMessage, st *simrt.Stats, log *simrt.Log) *simrt.Vio
 				txs = append(txs, node.TxSpec{K: "create", From: r.Intn(4), Prog: r.Intn(8), Salt: fmt.Sprintf("c9c-%d-%d", i, j)}.Build())
 			}
 		}
+		if len(txs) > 0 && r.Chance(0.5) {
+			// a gateway request id (outside the transaction hash); the block header carries the highest one seen
+			txs[0].RequestId = uint64(10*(i+1) + r.Intn(5))
+			st.Fault("gateway_request_id")
+		}
 		// sub-second, zoned timestamps
 		node.SetTime(node.EpochTime.Add(time.Duration(i) * time.Hour).In(zone))
 		b, err := n.CastBlock(node.BlockSpec{QN: uint64(r.Range(1, 3)), PV: int64(r.Range(1, 1<<20)), Castor: r.Intn(2), TimeMs: int64(1000*(i+1)) + int64(p.Nanos%1000), Txs: txs})
 		if err != nil {
 			panic(runner.InfraError{Msg: "C09 cast: " + err.Error()})
+		}
+		// proposing a block must leave the head it builds on as it was: the live head object is what the node
+		// relays and re-hashes when a peer asks for it
+		if top := n.Chain.TopBlock(); top != nil && top.GenHash() != top.Hash {
+			return viol(i, "hash-changed-by-codec", "head-after-cast", "after proposing block %d the head header (height %d) no longer re-hashes to its hash (request ids now %v)", i, top.Height, top.RequestIds)
 		}
 		wire, err := types.MarshalBlock(b)
 		if err != nil {
@@ -569,15 +579,21 @@ func (c09) Exec(raw json.RawMessage, st *simrt.Stats, log *simrt.Log) *simrt.Vio
 			kind string
 			enc  func() ([]byte, error)
 			ref  []byte
+			hash func() common.Hash // identifying hash recomputed from the object (nil: none)
+			want common.Hash
 		}
 		var objs []cobj
 		for _, b := range blocks {
 			b := b
 			objs = append(objs, cobj{kind: "block", enc: func() ([]byte, error) { return types.MarshalBlock(b) }},
-				cobj{kind: "header", enc: func() ([]byte, error) { return types.MarshalBlockHeader(b.Header) }})
+				cobj{kind: "header", enc: func() ([]byte, error) { return types.MarshalBlockHeader(b.Header) }, hash: func() common.Hash { return b.Header.GenHash() }, want: b.Header.Hash})
 			if len(b.Transactions) > 0 {
+				t0 := b.Transactions[0]
 				objs = append(objs, cobj{kind: "transactions", enc: func() ([]byte, error) { return types.MarshalTransactions(b.Transactions) }},
-					cobj{kind: "transaction", enc: func() ([]byte, error) { return types.MarshalTransaction(b.Transactions[0]) }})
+					cobj{kind: "transaction", enc: func() ([]byte, error) { return types.MarshalTransaction(t0) }})
+				if t0.Type != types.TransactionTypeETHTX {
+					objs[len(objs)-1].hash, objs[len(objs)-1].want = func() common.Hash { return t0.GenHash() }, t0.Hash
+				}
 			}
 		}
 		objs = append(objs, cobj{kind: "group", enc: func() ([]byte, error) { return types.MarshalGroup(g) }})
@@ -596,6 +612,11 @@ func (c09) Exec(raw json.RawMessage, st *simrt.Stats, log *simrt.Log) *simrt.Vio
 					got, err := o.enc()
 					if (err != nil || !bytes.Equal(got, o.ref)) && cviol == nil {
 						cviol = viol(-1, "concurrent-marshal-corrupted", o.kind, "caller %d of %d concurrent callers received bytes for its %s that differ from the bytes the same call returns alone (err=%v)", k, p.Conc, o.kind, err)
+					}
+					if o.hash != nil && cviol == nil {
+						if h := o.hash(); h != o.want {
+							cviol = viol(-1, "concurrent-hash-wrong", o.kind, "caller %d of %d concurrent callers re-hashed its %s to %x, its identifying hash is %x", k, p.Conc, o.kind, h.Bytes()[:6], o.want.Bytes()[:6])
+						}
 					}
 				}
 			})
